@@ -53,4 +53,16 @@ def indentLines (k : Nat) : List Char → List Char
 def commentBlock (k : Nat) (c : List Char) : List Char :=
   ['(', '*', ' '] ++ indentLines k (sanitize c ++ [' ', '*', ')'])
 
+/-- The repair of unpaired quotes in `AddComment` (applied after the two replacements): when the
+number of `"` is odd, every `"` is printed as `'`. -/
+def fixQuotes (c : List Char) : List Char :=
+  if c.count '"' % 2 = 1 then c.map (fun x => if x = '"' then '\'' else x) else c
+
+/-- everything `AddComment` does to the text of a comment -/
+def sanitizeQ (c : List Char) : List Char := fixQuotes (sanitize c)
+
+/-- The block as printed (with the quote repair), continuation lines indented by `k`. -/
+def commentBlockQ (k : Nat) (c : List Char) : List Char :=
+  ['(', '*', ' '] ++ indentLines k (sanitizeQ c ++ [' ', '*', ')'])
+
 end GooseVerif.Model.Sanitize
